@@ -305,7 +305,7 @@ MAP_DEST = ("package dest\n\ntype Order2 struct {\n\tid string\n\tamount int\n}\
 
 
 # ------------------------------------------------------------------ main
-PLAN_QUICK = {"new": 12, "enum": 5, "rest": 5, "map": 6}
+PLAN_QUICK = {"new": 10, "enum": 5, "rest": 4, "map": 5}
 PLAN_THOROUGH = {"new": 120, "enum": 40, "rest": 40, "map": 60}
 
 
